@@ -30,7 +30,8 @@ CONSTANTS MaxMsgs,        \* streams of 0..MaxMsgs messages
           PoolIdx,        \* subset of 1..5 : which pool messages may be used
           SepIdx,         \* subset of 1..5 : which separators may be used
           Faults,         \* subset of FaultKinds (without "none") that may be applied
-          Modes,          \* subset of [info: BOOLEAN, cont: BOOLEAN, filt: BOOLEAN]
+          Modes,          \* subset of [info: BOOLEAN, cont: BOOLEAN, filt: BOOLEAN, ive: BOOLEAN]
+                          \* ive: expected values (the signatures) are not enforced - ignore_value_expectation
           UniformSeps,    \* TRUE: all separators of a stream are the same one (keeps 3-message streams small)
           WithCuts,       \* TRUE: additionally every proper prefix of every pool message, alone in the stream
           SweepLo, SweepHi, SweepChunk   \* length sweep: messages with SweepLo..SweepHi filler octets (consecutive total
@@ -140,7 +141,10 @@ InfoExtent(s, c) ==       \* offset just after section 4 as declared (valid when
     LET h == ParseHeader(SubSeq(s, c + 1, Len(s))) IN h.s4 + h.l4
 DeclaredTotal(s, c) == U3(s, c + 4)
 
-FullOK(c) == LET i == SegAt(c) IN i # 0 /\ layout[i].fault = "none"
+(* what full decoding can see of a fault: with ive a damaged stop signature passes (its four octets are read,
+   not compared) - every other fault is found as before *)
+Visible(f) == f # "none" /\ ~(mode.ive /\ f = "stop")
+FullOK(c) == LET i == SegAt(c) IN i # 0 /\ ~Visible(layout[i].fault)
 Edition(c) == S[c + 8]
 FilterTrue(c) == Edition(c) = 4                     \* the filter expression used: ${%edition} == 4
 
@@ -239,7 +243,7 @@ Finished == status \in {"done", "raised"}
 
 (* ---- properties ------------------------------------------------------------------------ *)
 (* is message segment i delivered in this mode if scanning gets to it? *)
-Detectable(i) == IF mode.info THEN ~InfoOK(S, StartOf(layout, i)) ELSE layout[i].fault # "none"
+Detectable(i) == IF mode.info THEN ~InfoOK(S, StartOf(layout, i)) ELSE Visible(layout[i].fault)
 Wanted(i) == ~Detectable(i) /\ (mode.filt => PoolEdition(layout[i].k) = 4)
 RECURSIVE OrderedMsgSegs(_)
 OrderedMsgSegs(i) == IF i > Len(layout) THEN <<>>
@@ -248,6 +252,9 @@ Expected(segs) == SelectSeq(segs, Wanted)
 YieldOf(i) == [at |-> StartOf(layout, i), len |-> Len(SegOctets(layout[i]))]
 
 NoFaults == \A i \in MsgSegs : layout[i].fault = "none"
+(* with ive the stop signature is the only thing that is waived *)
+IveWaivesOnlyStop == (mode.ive /\ status = "done" /\ ~mode.info) =>
+    \A i \in MsgSegs : (layout[i].fault \notin {"none", "stop"}) => \A j \in 1..Len(yielded) : yielded[j].at # StartOf(layout, i)
 (* C11: without damage the stream yields exactly its (matching) messages with their exact bytes *)
 YieldsExactlyMessages ==
     (status = "done" /\ NoFaults) =>
